@@ -242,6 +242,15 @@ pub fn run(ctx: &mut Ctx) {
             }
             // let background tasks (time limiter background mode, hedges) finish
             w.block_on(async { tokio::time::sleep(Duration::from_millis(200)).await });
+            // the readiness contract also holds on the triggering paths (rejections, open and
+            // half-open breaker, timeouts, retries, hedges, ...)
+            if subset == 0 {
+                let g = w.inner.lock().unwrap();
+                for v in g.contract_violations.iter() {
+                    ctx.viol("call_on_unpolled_instance", &format!("{}::triggered_path", m.name()), format!("{} triggering configuration", m.name()), json!({"steps": steps.len()}), v.clone());
+                }
+                ctx.rep.witness("triggered_paths_checked_for_readiness", 1);
+            }
             let logs: Vec<Vec<String>> = ls.logs.iter().map(|l| l.lock().unwrap().clone()).collect();
             for l in logs.iter().flatten() {
                 kinds_seen.insert(l.clone());
